@@ -71,10 +71,10 @@ static void sub_solve() {
         bool same = check_rank_consistent(c, tag, o);
         int anythrew = o.threw, gt = 0; MPI_Allreduce(&anythrew, &gt, 1, MPI_INT, MPI_MAX, w.comm); if (gt) continue;
         std::vector<double> gx = allgather_vec(x.data(), rp);
-        // Richardson is a stationary iteration: it converges iff rho(I - B A) < 1, which the V-cycle does not guarantee even on one rank
-        // (witness: aggregation + damped_jacobi on a G2 geometric graph, n = 775, diverges bit-identically on 1..8 ranks).  Its convergence
-        // clause is therefore differential: the same configuration is run by rank 0 alone on MPI_COMM_SELF, and the distributed run must
-        // converge whenever that single-rank run does.
+        // Richardson is a stationary iteration: it converges iff rho(I - B A) < 1, which the V-cycle with over-interpolated plain aggregation does not
+        // guarantee even on one rank (witness: aggregation + damped_jacobi on a G2 geometric graph, n = 775, diverges bit-identically on 1..8 ranks).
+        // The convergence clause stays as the property states it; to tell "the method diverges" from "the distribution breaks it" the same
+        // configuration is also run by rank 0 alone on MPI_COMM_SELF and the outcome is attached to the failure detail.
         bool ref_converges = true; size_t ref_iters = 0;
         if (sv == "richardson" && !budget && w.size > 1) { if (w.rank == 0) { try { mpi::communicator self(MPI_COMM_SELF); size_t nn = p.A.n; std::vector<double> xr = p.x0; Solver ref(self, std::tie(nn, p.A.ptr, p.A.col, p.A.val), prm); double rr; std::tie(ref_iters, rr) = ref(p.f, xr); ref_converges = std::isfinite(rr) && rr < tol; }
                 catch (const std::exception &) { ref_converges = false; } vf::obs_sum(ref_converges ? "richardson_reference_converges" : "richardson_reference_diverges"); } }
@@ -89,8 +89,8 @@ static void sub_solve() {
         if (w.rank) continue;
         //-------------------------------------------------------------- rank 0
         double kappa = kappa_spd(p.A);
-        TruthSpec ts; ts.solver = sv; ts.maxiter = maxiter; ts.tol = tol; ts.kappa = kappa; ts.left = left; ts.left_true = left_true; ts.must_converge = !budget && ref_converges;
-        if (sv == "richardson" && w.size == 1 && !budget) { ts.must_converge = false; vf::obs_sum((std::isfinite(o.res) && o.res < tol) ? "richardson_np1_converges" : "richardson_np1_diverges"); }
+        TruthSpec ts; ts.solver = sv; ts.maxiter = maxiter; ts.tol = tol; ts.kappa = kappa; ts.left = left; ts.left_true = left_true; ts.must_converge = !budget;
+        if (sv == "richardson" && !budget) { if (w.size > 1) ts.note = ref_converges ? "converges in " + std::to_string(ref_iters) + " iterations" : "does not converge either"; else { ts.note = "this is the single-rank run"; vf::obs_sum((std::isfinite(o.res) && o.res < tol) ? "richardson_np1_converges" : "richardson_np1_diverges"); } }
         if (same) check_truth(c, tag, p.A, p.f, gx, p.x0, o, ts);
         c.check(nlev >= 2, "harness:single-level:" + tag, "hierarchy has a single level; the case does not exercise the distributed setup", J().n("levels", nlev));
         // recorded hierarchy
